@@ -17,6 +17,7 @@ import (
 
 	"golang.org/x/telemetry/internal/mmap"
 	"golang.org/x/telemetry/internal/verifshim/sched"
+	"golang.org/x/telemetry/internal/verifshim/vatomic"
 )
 
 var (
@@ -76,6 +77,7 @@ var defaultErrs = map[string][]error{
 // injected instead of performing the call.
 func pre(op, path string) error {
 	if !sched.Active() {
+		vatomic.Spend(200)
 		return nil
 	}
 	sched.CheckDead()
